@@ -225,8 +225,17 @@ type Layout struct {
 	Gaps         bool   // leave free blocks between cells
 }
 
+// Ref names a field of the image: where structure-aware corruption can aim.
+type Ref struct {
+	Off  int    // byte offset in the image
+	Len  int    // length of the field
+	Kind string // page.type, page.ncells, page.cellptr, page.content, page.rightmost, cell.child, cell.paysize, cell.rowid, cell.ovfl, ovfl.next, rec.hdrsize, rec.serial
+	Page int
+}
+
 // Builder assembles a database image.
 type Builder struct {
+	Refs   []Ref
 	U      int // page size (= usable size, reserved space is 0)
 	Layout Layout
 	r      rng
@@ -277,6 +286,46 @@ func (b *Builder) Alloc() int {
 type Cell struct {
 	Bytes    []byte
 	Overflow int // number of overflow pages
+	refs     []Ref
+}
+
+// recRefs finds the header fields of the record starting at off in the cell
+// (only as far as the local part reaches).
+func recRefs(c []byte, off int) []Ref {
+	var out []Ref
+	if off >= len(c) {
+		return nil
+	}
+	hs, n := readVar(c[off:])
+	if n <= 0 {
+		return nil
+	}
+	out = append(out, Ref{Off: off, Len: n, Kind: "rec.hdrsize"})
+	p := off + n
+	end := off + int(hs)
+	for p < end && p < len(c) && len(out) < 12 {
+		_, m := readVar(c[p:])
+		if m <= 0 {
+			break
+		}
+		out = append(out, Ref{Off: p, Len: m, Kind: "rec.serial"})
+		p += m
+	}
+	return out
+}
+
+func readVar(b []byte) (uint64, int) {
+	var v uint64
+	for i := 0; i < 9 && i < len(b); i++ {
+		if i == 8 {
+			return v<<8 | uint64(b[i]), 9
+		}
+		v = v<<7 | uint64(b[i]&0x7f)
+		if b[i] < 0x80 {
+			return v, i + 1
+		}
+	}
+	return 0, -1
 }
 
 // payload splits a payload into the local part and an overflow chain.
@@ -302,6 +351,7 @@ func (b *Builder) payload(p []byte, index bool) (local []byte, first int, npages
 			next = pgs[i+1]
 		}
 		binary.BigEndian.PutUint32(buf[0:4], uint32(next))
+		b.Refs = append(b.Refs, Ref{Off: (pg - 1) * b.U, Len: 4, Kind: "ovfl.next", Page: pg})
 		n := copy(buf[4:], rest)
 		rest = rest[n:]
 	}
@@ -314,38 +364,52 @@ func (b *Builder) payload(p []byte, index bool) (local []byte, first int, npages
 func (b *Builder) TableLeafCell(rowid int64, p []byte, sizeLen, rowidLen int) Cell {
 	local, first, n := b.payload(p, false)
 	c := Varint(uint64(len(p)), sizeLen)
+	a := len(c)
 	c = append(c, Varint(uint64(rowid), rowidLen)...)
+	bb := len(c)
 	c = append(c, local...)
+	refs := []Ref{{Off: 0, Len: a, Kind: "cell.paysize"}, {Off: a, Len: bb - a, Kind: "cell.rowid"}}
+	refs = append(refs, recRefs(c, bb)...)
 	if first != 0 {
+		refs = append(refs, Ref{Off: len(c), Len: 4, Kind: "cell.ovfl"})
 		c = binary.BigEndian.AppendUint32(c, uint32(first))
 	}
-	return Cell{c, n}
+	return Cell{c, n, refs}
 }
 
 func TableInteriorCell(left int, key int64, keyLen int) Cell {
 	c := binary.BigEndian.AppendUint32(nil, uint32(left))
-	return Cell{append(c, Varint(uint64(key), keyLen)...), 0}
+	c = append(c, Varint(uint64(key), keyLen)...)
+	return Cell{c, 0, []Ref{{Off: 0, Len: 4, Kind: "cell.child"}, {Off: 4, Len: len(c) - 4, Kind: "cell.rowid"}}}
 }
 
 func (b *Builder) IndexLeafCell(p []byte, sizeLen int) Cell {
 	local, first, n := b.payload(p, true)
 	c := Varint(uint64(len(p)), sizeLen)
+	a := len(c)
 	c = append(c, local...)
+	refs := []Ref{{Off: 0, Len: a, Kind: "cell.paysize"}}
+	refs = append(refs, recRefs(c, a)...)
 	if first != 0 {
+		refs = append(refs, Ref{Off: len(c), Len: 4, Kind: "cell.ovfl"})
 		c = binary.BigEndian.AppendUint32(c, uint32(first))
 	}
-	return Cell{c, n}
+	return Cell{c, n, refs}
 }
 
 func (b *Builder) IndexInteriorCell(left int, p []byte, sizeLen int) Cell {
 	local, first, n := b.payload(p, true)
 	c := binary.BigEndian.AppendUint32(nil, uint32(left))
 	c = append(c, Varint(uint64(len(p)), sizeLen)...)
+	a := len(c)
 	c = append(c, local...)
+	refs := []Ref{{Off: 0, Len: 4, Kind: "cell.child"}, {Off: 4, Len: a - 4, Kind: "cell.paysize"}}
+	refs = append(refs, recRefs(c, a)...)
 	if first != 0 {
+		refs = append(refs, Ref{Off: len(c), Len: 4, Kind: "cell.ovfl"})
 		c = binary.BigEndian.AppendUint32(c, uint32(first))
 	}
-	return Cell{c, n}
+	return Cell{c, n, refs}
 }
 
 func hdrOff(pgno int) int {
@@ -419,6 +483,18 @@ func (b *Builder) WritePage(pgno int, kind byte, cells []Cell, rightmost int) {
 		top -= cellSpace(cells[ci])
 		copy(buf[top:], cells[ci].Bytes)
 		offs[ci] = top
+		for _, rf := range cells[ci].refs {
+			b.Refs = append(b.Refs, Ref{Off: (pgno-1)*b.U + top + rf.Off, Len: rf.Len, Kind: rf.Kind, Page: pgno})
+		}
+	}
+	base := (pgno - 1) * b.U
+	b.Refs = append(b.Refs, Ref{Off: base + ho, Len: 1, Kind: "page.type", Page: pgno}, Ref{Off: base + ho + 3, Len: 2, Kind: "page.ncells", Page: pgno},
+		Ref{Off: base + ho + 5, Len: 2, Kind: "page.content", Page: pgno}, Ref{Off: base + ho + 1, Len: 2, Kind: "page.freeblock", Page: pgno})
+	if hl == 12 {
+		b.Refs = append(b.Refs, Ref{Off: base + ho + 8, Len: 4, Kind: "page.rightmost", Page: pgno})
+	}
+	for i := range offs {
+		b.Refs = append(b.Refs, Ref{Off: base + ho + hl + 2*i, Len: 2, Kind: "page.cellptr", Page: pgno})
 	}
 	for i, o := range offs {
 		binary.BigEndian.PutUint16(buf[ho+hl+2*i:], uint16(o))
@@ -771,14 +847,22 @@ type Header struct {
 // Finish writes sqlite_master (root page 1), the freelist and the header and
 // returns the image.
 func (b *Builder) Finish(objs []Object, h Header, masterOpts TreeOpts) []byte {
-	var rows []TableRow
-	for i, o := range objs {
+	var raw [][]Field
+	for _, o := range objs {
 		sql := val.Text(o.SQL)
 		if o.SQL == "\x00NULL" {
 			sql = val.Null()
 		}
-		rec := EncodeRecord(Values(val.Text(o.Type), val.Text(o.Name), val.Text(o.TblName), val.Int(int64(o.Root)), sql), 0)
-		rows = append(rows, TableRow{Rowid: int64(i + 1), Payload: rec})
+		raw = append(raw, Values(val.Text(o.Type), val.Text(o.Name), val.Text(o.TblName), val.Int(int64(o.Root)), sql))
+	}
+	return b.FinishRaw(raw, h, masterOpts)
+}
+
+// FinishRaw is Finish with arbitrary sqlite_master records.
+func (b *Builder) FinishRaw(master [][]Field, h Header, masterOpts TreeOpts) []byte {
+	var rows []TableRow
+	for i, fs := range master {
+		rows = append(rows, TableRow{Rowid: int64(i + 1), Payload: EncodeRecord(fs, 0)})
 	}
 	masterOpts.Root = 1
 	b.BuildTable(rows, masterOpts)
